@@ -794,15 +794,76 @@ impl G {
 // ------------------------------------------------------------------------------------------
 // one case
 // ------------------------------------------------------------------------------------------
-fn run_case(i: usize, d: &DesignSpaceDocument, out: &Path, tmp: &Path) -> J {
+/// What the target path holds before `save` is called on it.
+/// "fresh": nothing; "longer" / "shorter": a designspace written by norad that is longer / shorter
+/// than the new one; "bytes": arbitrary longer bytes; "empty": an empty file; "history": a longer
+/// document was saved there, loaded again, edited (padding instances and lib entries dropped) and
+/// the edited document is saved in place.
+const PRES: &[&str] = &["fresh", "longer", "shorter", "bytes", "empty", "history"];
+
+/// `d` plus padding: extra instances with libs and extra lib entries, so that its file is longer
+fn padded(d: &DesignSpaceDocument, min_len: usize) -> DesignSpaceDocument {
+    let mut big = d.clone();
+    let mut k = 0;
+    loop {
+        let mut lib = Dictionary::new();
+        lib.insert("zz.pad".into(), Value::String("stale instance lib, must not survive an overwrite".repeat(3)));
+        big.instances.push(Instance {
+            familyname: Some("Stale Family".into()), stylename: Some("Stale".into()), name: Some(format!("stale-{}", k)),
+            filename: Some("instances/stale.ufo".into()), postscriptfontname: None, stylemapfamilyname: None,
+            stylemapstylename: None,
+            location: vec![Dimension { name: "Weight".into(), uservalue: None, xvalue: Some(400.0), yvalue: None }],
+            lib,
+        });
+        big.lib.insert(format!("zz.pad.{}", k), Value::Array(vec![Value::String("stale document lib entry".into()); 4]));
+        k += 1;
+        // each round adds well over 600 bytes
+        if k * 600 > min_len + 600 {
+            return big;
+        }
+    }
+}
+fn minimal_doc() -> DesignSpaceDocument {
+    let mut d = DesignSpaceDocument::default();
+    d.format = 5.0;
+    d.axes.push(Axis { name: "W".into(), tag: "wght".into(), default: 1.0, hidden: false, minimum: None, maximum: None, values: None, map: None });
+    d.sources.push(Source { familyname: None, stylename: None, name: None, filename: "a".into(), layer: None,
+                            location: vec![Dimension { name: "W".into(), uservalue: None, xvalue: Some(1.0), yvalue: None }] });
+    d
+}
+
+fn run_case(i: usize, d0: &DesignSpaceDocument, out: &Path, tmp: &Path, pre: &str) -> J {
     let p = tmp.join("case.designspace");
+    let fresh = tmp.join("fresh.designspace");
     let _ = std::fs::remove_file(&p);
+    let _ = std::fs::remove_file(&fresh);
+    let mut pre = pre;
+    // the load -> edit -> save-in-place history: the document under test is the edited one
+    let mut edited: Option<DesignSpaceDocument> = None;
+    if pre == "history" {
+        let big = padded(d0, 0);
+        let ok = matches!(catch(|| big.save(&p)), Ok(Ok(())));
+        let loaded = if ok { catch(|| DesignSpaceDocument::load(&p)).ok().and_then(|r| r.ok()) } else { None };
+        match loaded {
+            Some(mut l) => {
+                l.instances.truncate(d0.instances.len());
+                l.lib.retain(|k, _| !k.starts_with("zz.pad."));
+                edited = Some(l);
+            }
+            None => {
+                pre = "fresh";
+                let _ = std::fs::remove_file(&p);
+            }
+        }
+    }
+    let d: &DesignSpaceDocument = edited.as_ref().unwrap_or(d0);
     let (forb, norm) = cls_reader(d);
     let mut rec = json!({
         "i": i, "doc": doc_to_json(d), "wf": wf(d), "cls_trim": cls_trim(d),
-        "cls_forbidden": forb, "cls_norm": norm, "has_nan": f32_has_nan(d),
+        "cls_forbidden": forb, "cls_norm": norm, "has_nan": f32_has_nan(d), "pre": pre,
     });
-    let saved = catch(|| d.save(&p));
+    // reference: the same document saved to a path that does not exist
+    let saved = catch(|| d.save(&fresh));
     match saved {
         Err(m) => {
             rec["save"] = json!("panic");
@@ -816,7 +877,46 @@ fn run_case(i: usize, d: &DesignSpaceDocument, out: &Path, tmp: &Path) -> J {
         }
         Ok(Ok(())) => rec["save"] = json!("ok"),
     }
+    let fresh_bytes = std::fs::read(&fresh).unwrap_or_default();
+    if pre == "fresh" {
+        std::fs::rename(&fresh, &p).unwrap();
+    } else {
+        match pre {
+            "longer" => {
+                let big = padded(d, fresh_bytes.len());
+                let _ = catch(|| big.save(&p));
+            }
+            "shorter" => {
+                let _ = catch(|| minimal_doc().save(&p));
+            }
+            "bytes" => {
+                let mut r = Rng::new(i as u64 ^ 0xB17E5);
+                let n = fresh_bytes.len() + 1 + r.below(3000) as usize;
+                let junk: Vec<u8> = (0..n).map(|_| if r.chance(1, 3) { b'>' } else { r.next() as u8 }).collect();
+                std::fs::write(&p, junk).unwrap();
+            }
+            "empty" => std::fs::write(&p, b"").unwrap(),
+            _ => {} // history: p already holds the longer document
+        }
+        rec["pre_len"] = json!(std::fs::metadata(&p).map(|m| m.len()).unwrap_or(0));
+        match catch(|| d.save(&p)) {
+            Ok(Ok(())) => {}
+            Err(m) => {
+                rec["save"] = json!("panic");
+                rec["msg"] = json!(format!("saving over an existing file: {}", m));
+                return rec;
+            }
+            Ok(Err(e)) => {
+                rec["save"] = json!("err");
+                rec["msg"] = json!(format!("saving over an existing file: {:?}", e));
+                return rec;
+            }
+        }
+    }
     let bytes = std::fs::read(&p).unwrap_or_default();
+    rec["same_bytes"] = json!(bytes == fresh_bytes);
+    rec["len"] = json!(bytes.len());
+    rec["fresh_len"] = json!(fresh_bytes.len());
     std::fs::write(out.join(format!("f{}.xml", i)), &bytes).unwrap();
     match catch(|| DesignSpaceDocument::load(&p)) {
         Err(m) => {
@@ -950,9 +1050,10 @@ pub fn main(a: &Args) {
         let mut i = 0;
         for line in text.lines().filter(|l| !l.trim().is_empty()) {
             let j: J = serde_json::from_str(line).expect("replay JSON");
+            let pre = j.get("pre").and_then(|x| x.as_str()).and_then(|x| PRES.iter().find(|y| **y == x)).copied().unwrap_or("fresh");
             let dj = if j.get("doc").is_some() { j["doc"].clone() } else { j };
             let d = doc_from_json(&dj);
-            let rec = run_case(i, &d, &a.out, tmp.path());
+            let rec = run_case(i, &d, &a.out, tmp.path(), pre);
             lines.push_str(&rec.to_string());
             lines.push('\n');
             i += 1;
@@ -976,7 +1077,10 @@ pub fn main(a: &Args) {
             0
         };
         let d = g.doc(bad);
-        let mut rec = run_case(i, &d, &a.out, tmp.path());
+        // three documents in ten are saved over an existing file
+        let pre = ["fresh", "fresh", "fresh", "fresh", "fresh", "fresh", "fresh", "fresh", "fresh", "fresh", "fresh", "fresh",
+                   "fresh", "fresh", "longer", "longer", "shorter", "bytes", "empty", "history"][g.rng.below(20) as usize];
+        let mut rec = run_case(i, &d, &a.out, tmp.path(), pre);
         rec["kind"] = json!(if kind < 60 { "wf-clean" } else if kind < 75 { "wf-wild" } else { "ill-formed" });
         lines.push_str(&rec.to_string());
         lines.push('\n');
@@ -986,7 +1090,7 @@ pub fn main(a: &Args) {
     let numbers: Vec<f32> = magic.n.clone();
     for (k, m) in magic.s.iter().enumerate() {
         let d = sweep_doc(m, numbers[k % numbers.len()]);
-        let mut rec = run_case(i, &d, &a.out, tmp.path());
+        let mut rec = run_case(i, &d, &a.out, tmp.path(), if k % 16 == 5 { "longer" } else { "fresh" });
         rec["kind"] = json!("magic-sweep");
         lines.push_str(&rec.to_string());
         lines.push('\n');
@@ -997,7 +1101,7 @@ pub fn main(a: &Args) {
             continue; // already used above
         }
         let d = sweep_doc(&magic.s[k % magic.s.len()], *x);
-        let mut rec = run_case(i, &d, &a.out, tmp.path());
+        let mut rec = run_case(i, &d, &a.out, tmp.path(), "fresh");
         rec["kind"] = json!("magic-sweep");
         lines.push_str(&rec.to_string());
         lines.push('\n');
